@@ -59,7 +59,27 @@ def worlds(tier):
         yield from itertools.product(inn3, inner_values(3))
 
 
+INT_INNER = [(), (0,), (0, 1), (2, 2), (1, 0), 0, 2, 1]      # plain values as elements, falsy ones and scalars included
+IKINDS = {
+    "ivalue": None,
+    "iin": ("in", A(M, "p"), CC),
+    "ihas": ("has", CC, A(M, "p")),
+    "inot_in": ("not", ("in", A(M, "p"), CC)),
+}
+
+
 def cases(tier, inst):
+    # plain (integer) elements: the value 0 is an element like any other, also as a scalar inner value
+    for n in (1, 2, 3):
+        for combo in itertools.product(INT_INNER, repeat=n):
+            if n == 3 and tier == "quick" and hash(combo) % 4:
+                continue
+            for k in IKINDS:
+                yield (("int",) + combo, k, True)
+    yield from object_cases(tier, inst)
+
+
+def object_cases(tier, inst):
     seen = set()
     for combo in worlds(tier):
         if combo in seen:
@@ -73,6 +93,9 @@ def cases(tier, inst):
 
 
 def wspec_of(combo):
+    if combo and combo[0] == "int":
+        rows = tuple((("p", i + 1), ("items", inner)) for i, inner in enumerate(combo[1:]))
+        return (("E", "Item", tuple((("p", i),) for i in range(4))), ("P", "Item", rows))
     ref = lambda i: ("@", "E", i)      # noqa: E731
     rows = tuple((("p", i + 1), ("items", tuple(ref(j) for j in inner) if isinstance(inner, tuple) else ref(inner)))
                  for i, inner in enumerate(combo))
@@ -85,6 +108,10 @@ VM = ("m", "let", "Item", "E")
 
 def query_of(case):
     combo, k, caching = case
+    if k == "ivalue":
+        return ("Q", "an", "entity", CC, (), (VX,))
+    if k in IKINDS:
+        return ("Q", "an", "entity", M, (IKINDS[k],), (VM, VX))
     if k == "value":
         return ("Q", "an", "entity", CC, (), (VX,))
     return ("Q", "an", "entity", M, (KINDS[k],), (VM, VX))
@@ -104,17 +131,26 @@ def run_case(case, inst):
             got = list(obj.evaluate())
         except Exception as e:
             got = exc_obs(e)
-        if k == "value":
+        if k in ("value", "ivalue"):
             return got, combined, None
-        neg = k.startswith("not") or k.startswith("inv")
-        exp = [o for o in world["E"] if (any(o is c for c in combined)) != neg]
+        neg = "not" in k or k.startswith("inv")
+        if k in IKINDS:
+            exp = [o for o in world["E"] if (o.p in combined) != neg]
+        else:
+            exp = [o for o in world["E"] if (any(o is c for c in combined)) != neg]
         return got, exp, len(world["E"])
 
     got, exp, total = run_isolated(body, caching=caching)
     res = {"ok": True, "transitions": 1, "tags": [f"kind={k}", f"parents={len(combo)}", f"caching={'on' if caching else 'off'}"]
            + (["all_empty"] if combo and all(i == () for i in combo) else []) + (["no_parent"] if not combo else []),
            "outcome": f"{k}:{len(exp)}"}
-    if k == "value":
+    if k == "ivalue":
+        res["nontrivial"] = len(exp) > 0
+        if is_exc(got):
+            res.update(ok=False, sig=f"ivalue:exc:{got[1]}", obs=got, exp=[repr(exp)])
+        elif len(got) != 1 or list(got[0]) != exp:
+            res.update(ok=False, sig="ivalue:" + ("rows" if len(got) != 1 else "content"), obs=repr(got), exp=repr([exp]))
+    elif k == "value":
         res["nontrivial"] = len(exp) > 0
         if is_exc(got):
             res.update(ok=False, sig=f"value:exc:{got[1]}" + ("/no_parent" if not combo else ""), obs=got, exp=[labels(exp)])
